@@ -415,18 +415,18 @@ impl Buffer {
         self.layers[layer].remove_line(line);
         if let Some((_, end)) = self.terminal_state.get_margins_top_bottom() {
             let buffer_width = self.layers[layer].get_width();
-            self.layers[layer].insert_line(end, Line::with_capacity(buffer_width));
+            self.layers[layer].insert_line(end.max(0), Line::with_capacity(buffer_width));
         }
     }
 
     fn insert_terminal_line(&mut self, layer: usize, line: i32) {
         if let Some((_, end)) = self.terminal_state.get_margins_top_bottom() {
-            if end < self.layers[layer].get_line_count() {
+            if end >= 0 && end < self.layers[layer].get_line_count() {
                 self.layers[layer].lines.remove(end as usize);
             }
         }
         let buffer_width = self.layers[layer].get_width();
-        self.layers[layer].insert_line(line, Line::with_capacity(buffer_width));
+        self.layers[layer].insert_line(line.max(0), Line::with_capacity(buffer_width));
     }
 }
 
